@@ -123,6 +123,9 @@ def decode_conf(spec):
     for k, v in spec.items():
         if k in ('claw_decor_place_func', 'claw_decor_place_type'):
             kw[k] = BeartypeDecorPlace[v]
+        elif k == 'strategy' and isinstance(v, str):
+            from beartype import BeartypeStrategy
+            kw[k] = BeartypeStrategy[v]
         elif k.startswith('violation_') and isinstance(v, str):
             kw[k] = {'UserWarning': UserWarning, 'RuntimeWarning': RuntimeWarning, 'ValueError': ValueError}[v]
         else:
